@@ -137,7 +137,7 @@ class JointRecurrenceNetwork(JointRecurrencePlot, Network):
 
                 #  Set diagonal of JR to zero to avoid self-loops in the joint
                 #  recurrence network
-                A = self.JR - np.eye((self.N-np.abs(lag)), dtype="int8")
+                A = self.JR - np.eye(self.N, dtype="int8")
 
                 #  Create a Network object interpreting the recurrence matrix
                 #  as the graph adjacency matrix. Joint recurrence networks
